@@ -10,6 +10,8 @@ import (
 	"os/exec"
 	"strconv"
 	"strings"
+	"sync"
+	"sync/atomic"
 	"time"
 )
 
@@ -32,10 +34,82 @@ type solver struct {
 	stats   SolverStats
 	timeout time.Duration // per query
 	log     io.Writer
+	hist    *strings.Builder // commands since the last reset (SYMGO_SMTLOG)
+	cache   map[string]bool  // branch feasibility by independence slice (per worker, per harness)
+	named   map[string]*term // assertion name -> term (current session)
+	qc      *qcache
 }
 
+// qcache is shared by the workers of one exploration: unsat cores and recent models
+// answer most feasibility queries without a solver call (after KLEE's counterexample cache).
+type qcache struct {
+	mu     sync.RWMutex
+	cores  map[*term][][]*term // query -> sets of path literals that make it unsatisfiable
+	models []map[string]uint64
+	next   int
+	CoreHits, ModelHits int64
+	nAux, nInc          int64
+	tAux, tInc          time.Duration
+}
+
+// pickAux chooses between the standalone bit-blasting solver and the incremental one for
+// assertion batches: whichever has been faster on this harness so far (both are sampled).
+func (c *qcache) pickAux() bool {
+	c.mu.RLock()
+	defer c.mu.RUnlock()
+	switch {
+	case c.nAux < 12:
+		return true
+	case c.nInc < 12:
+		return false
+	case (c.nAux+c.nInc)%64 == 0:
+		return c.tAux/time.Duration(c.nAux) >= c.tInc/time.Duration(c.nInc) // explore the other one
+	}
+	return c.tAux/time.Duration(c.nAux) < c.tInc/time.Duration(c.nInc)
+}
+
+func (c *qcache) noteBatch(aux bool, d time.Duration) {
+	c.mu.Lock()
+	if aux {
+		c.nAux++
+		c.tAux += d
+	} else {
+		c.nInc++
+		c.tInc += d
+	}
+	c.mu.Unlock()
+}
+
+func newQcache() *qcache {
+	return &qcache{cores: map[*term][][]*term{}, models: make([]map[string]uint64, 0, 24)}
+}
+
+func (c *qcache) addCore(q *term, core []*term) {
+	c.mu.Lock()
+	if len(c.cores[q]) < 64 {
+		c.cores[q] = append(c.cores[q], core)
+	}
+	c.mu.Unlock()
+}
+
+func (c *qcache) addModel(m map[string]uint64) {
+	c.mu.Lock()
+	if len(c.models) < cap(c.models) {
+		c.models = append(c.models, m)
+	} else {
+		c.models[c.next%len(c.models)] = m
+		c.next++
+	}
+	c.mu.Unlock()
+}
+
+var slowCount int64
+
 func newSolver(bin []string, timeout time.Duration) *solver {
-	s := &solver{bin: bin, timeout: timeout}
+	s := &solver{bin: bin, timeout: timeout, cache: map[string]bool{}}
+	if os.Getenv("SYMGO_SMTLOG") != "" {
+		s.hist = &strings.Builder{}
+	}
 	s.start()
 	return s
 }
@@ -50,7 +124,9 @@ func (s *solver) start() {
 	}
 	s.cmd, s.in, s.out = cmd, in, bufio.NewReaderSize(outp, 1<<16)
 	s.pr = newPrinter()
+	s.named = map[string]*term{}
 	s.send("(set-option :print-success false)")
+	s.send("(set-option :produce-unsat-cores true)")
 	if s.timeout > 0 && strings.Contains(s.bin[0], "z3") {
 		s.send(fmt.Sprintf("(set-option :timeout %d)", s.timeout.Milliseconds()))
 	}
@@ -66,17 +142,22 @@ func (s *solver) close() {
 }
 
 func (s *solver) send(str string) {
-	if s.log != nil {
-		io.WriteString(s.log, str+"\n")
+	if s.hist != nil {
+		s.hist.WriteString(str + "\n")
 	}
 	io.WriteString(s.in, str+"\n")
 }
 
 // reset drops every assertion and definition (start of a new path).
 func (s *solver) reset() {
+	if s.hist != nil {
+		s.hist.Reset()
+	}
 	s.send("(reset)")
 	s.pr = newPrinter()
+	s.named = map[string]*term{}
 	s.send("(set-option :print-success false)")
+	s.send("(set-option :produce-unsat-cores true)")
 	if s.timeout > 0 && strings.Contains(s.bin[0], "z3") {
 		s.send(fmt.Sprintf("(set-option :timeout %d)", s.timeout.Milliseconds()))
 	}
@@ -92,7 +173,30 @@ func (s *solver) text(t *term) string {
 }
 
 func (s *solver) assert(t *term) {
-	s.send("(assert " + s.text(t) + ")")
+	name := fmt.Sprintf("a!%d", t.id)
+	if _, dup := s.named[name]; dup {
+		return
+	}
+	s.named[name] = t
+	s.send("(assert (! " + s.text(t) + " :named " + name + "))")
+}
+
+// core returns the path literals of the last unsat answer's core (call right after an
+// unsat check-sat, before pop).
+func (s *solver) core() []*term {
+	s.send("(get-unsat-core)")
+	line := s.readLine()
+	for strings.Count(line, "(") > strings.Count(line, ")") {
+		line += " " + s.readLine()
+	}
+	line = strings.Trim(line, "() ")
+	var out []*term
+	for _, n := range strings.Fields(line) {
+		if t, ok := s.named[n]; ok {
+			out = append(out, t)
+		}
+	}
+	return out
 }
 
 func (s *solver) readLine() string {
@@ -133,6 +237,25 @@ func (s *solver) check(extra *term) string {
 	return r
 }
 
+// checkCore is check() that also returns the unsat core (path literals) on unsat.
+func (s *solver) checkCore(extra *term) (string, []*term) {
+	t0 := time.Now()
+	txt := s.text(extra)
+	s.send("(push 1)")
+	s.send("(assert (! " + txt + " :named q!q))")
+	s.send("(check-sat)")
+	r := s.readVerdict()
+	var core []*term
+	if r == "unsat" {
+		core = s.core()
+	}
+	if r != "restart" {
+		s.send("(pop 1)")
+	}
+	s.account(r, t0)
+	return r, core
+}
+
 func (s *solver) readVerdict() string {
 	for {
 		line := s.readLine()
@@ -164,6 +287,12 @@ func (s *solver) readVerdict() string {
 }
 
 func (s *solver) account(r string, t0 time.Time) {
+	if s.hist != nil && time.Since(t0) > slowThreshold() {
+		n := atomic.AddInt64(&slowCount, 1)
+		if n <= 5 {
+			os.WriteFile(fmt.Sprintf("%s/slow-%d.smt2", os.Getenv("SYMGO_SMTLOG"), n), []byte(s.hist.String()), 0o644)
+		}
+	}
 	s.stats.Queries++
 	s.stats.Time += time.Since(t0)
 	switch r {
@@ -178,15 +307,24 @@ func (s *solver) account(r string, t0 time.Time) {
 
 // model returns values for vars under (assertions ∧ extra); ok is false unless sat.
 func (s *solver) model(extra *term, vars []*term) (map[string]uint64, string) {
+	m, r, _ := s.modelCore(extra, vars)
+	return m, r
+}
+
+func (s *solver) modelCore(extra *term, vars []*term) (map[string]uint64, string, []*term) {
 	t0 := time.Now()
 	txt := s.text(extra)
 	for _, v := range vars {
 		s.text(v)
 	}
 	s.send("(push 1)")
-	s.send("(assert " + txt + ")")
+	s.send("(assert (! " + txt + " :named q!q))")
 	s.send("(check-sat)")
 	r := s.readVerdict()
+	var core []*term
+	if r == "unsat" {
+		core = s.core()
+	}
 	res := map[string]uint64{}
 	if r == "sat" {
 		for _, v := range vars {
@@ -199,7 +337,7 @@ func (s *solver) model(extra *term, vars []*term) (map[string]uint64, string) {
 		s.send("(pop 1)")
 	}
 	s.account(r, t0)
-	return res, r
+	return res, r, core
 }
 
 // parseValue parses "((name #x00ff))", "((name #b0101))", "((name true))", "((name (_ bv5 8)))".
@@ -238,4 +376,40 @@ func parseValue(line string) uint64 {
 
 func isHex(c byte) bool {
 	return (c >= '0' && c <= '9') || (c >= 'a' && c <= 'f') || (c >= 'A' && c <= 'F')
+}
+
+func slowThreshold() time.Duration {
+	if ms, err := strconv.Atoi(os.Getenv("SYMGO_SLOWMS")); err == nil {
+		return time.Duration(ms) * time.Millisecond
+	}
+	return 3 * time.Second
+}
+
+
+// checkStandalone decides (∧cs) ∧ q from scratch in QF_BV (non-incremental): z3's
+// bit-blasting tactic pipeline is several times faster on the assertion batches than
+// the incremental core. Used for validity queries only (no model needed).
+func (s *solver) checkStandalone(cs []*term, q *term) (string, []*term) {
+	t0 := time.Now()
+	s.send("(reset)")
+	s.pr = newPrinter()
+	s.named = map[string]*term{}
+	s.send("(set-option :print-success false)")
+	s.send("(set-option :produce-unsat-cores true)")
+	if s.timeout > 0 {
+		s.send(fmt.Sprintf("(set-option :timeout %d)", s.timeout.Milliseconds()))
+	}
+	s.send("(set-logic QF_BV)")
+	for _, c := range cs {
+		s.assert(c)
+	}
+	s.send("(assert " + s.text(q) + ")")
+	s.send("(check-sat)")
+	r := s.readVerdict()
+	var core []*term
+	if r == "unsat" {
+		core = s.core()
+	}
+	s.account(r, t0)
+	return r, core
 }
